@@ -50,6 +50,9 @@ type World struct {
 	// ClientWindow > 0: the gateway's writes to a client block once that many bytes are unread (a client that
 	// stopped reading)
 	ClientWindow int
+	// InIdentity != nil: the identity attached to the legacy RDG_IN_DATA request (the RDG_OUT_DATA request carries
+	// the one passed to OpenTunnel): the two requests of one tunnel are authenticated separately
+	InIdentity identity.Identity
 	// BackendWindow > 0: the gateway's writes to a remote desktop host block once that many bytes are unread (a
 	// host that stopped reading)
 	BackendWindow int
@@ -535,7 +538,11 @@ func (w *World) OpenTunnel(kind string, h http.Handler, gw *protocol.Gateway, co
 		}
 		c.Seed = append([]byte{}, c.rbuf[:10]...)
 		c.rbuf = c.rbuf[10:]
-		in := w.Serve("in-"+connID, h, "RDG_IN_DATA", hd, remoteAddr, id)
+		idIn := id
+		if w.InIdentity != nil {
+			idIn = w.InIdentity
+		}
+		in := w.Serve("in-"+connID, h, "RDG_IN_DATA", hd, remoteAddr, idIn)
 		c.In = in.Client
 		ic := &TunnelClient{Kind: "legacy", Conn: in.Client}
 		if !ic.ReadHTTPHead() || !strings.HasPrefix(ic.HTTPHead, "HTTP/1.1 200") {
